@@ -8,9 +8,9 @@
     functions, every model, state and time.  Vocabulary ([WF], [comp_holds], [OnlyParams]): Spec.v. *)
 From Coq Require Import ZArith List Bool.
 From MxlBase Require Import ListX.
-From Core Require Import Sort GenSortFacts Model Cache Query GenQueryFacts GenCacheFacts.
+From Core Require Import Sort GenSortFacts Model Cache CacheDraw Query GenQueryFacts GenCacheFacts.
 From Core Require FnLib.
-From CoreP Require Import Spec ProofsTop ProofsUnique ExModel.
+From CoreP Require Import Spec ProofsEnv ProofsTop ProofsUnique ExModel ProofsDraw.
 Import ListNotations.
 
 Theorem C13_facts_pinned : gen_query_facts = mkQueryFacts true true true true true.
@@ -81,6 +81,91 @@ Theorem C13_initial_env_unique :
               lookup k e1 = lookup k e2.
 Proof. exact initial_env_unique. Qed.
 Print Assumptions C13_initial_env_unique.
+
+(** ---- closing round: assignment functions that are not pure (seeded change C13-8) -------------------- *)
+(** Vocabulary (ProofsDraw.v / ../core/CacheDraw.v): [imp] = the assignments whose function draws; [draw k] = what the
+    k-th draw of one resolution adds to the function's pure meaning; [create_cache_d .. false] = [_create_cache] as
+    shipped, threading the log of draws through the time-zero pass; [plus_draw fsem z] = the meaning of a function whose
+    evaluation drew [z]; [ia_names m] = the assignment-defined variables and parameters; [cnt] = number of occurrences. *)
+
+(** [initial_conditions] is read from the values of the ONE time-zero pass (regenerated from the source; the recognised
+    alternative [InitAgain] is the seeded shape of [C13_evaluated_again_refuted]) *)
+Theorem C13_init_source_pinned : gen_init_source = InitFromPass.
+Proof. vm_compute. reflexivity. Qed.
+Print Assumptions C13_init_source_pinned.
+
+(** "computed once": in one resolution of the model every drawing assignment is evaluated exactly once -- the log of
+    draws holds each of them once, nothing else, no name twice -- for every model, every set of drawing assignments
+    and every stream of draws *)
+Theorem C13_drawing_assignment_evaluated_once :
+  forall fsem fsemN imp draw m c log,
+    WF m -> create_cache_d fsem fsemN imp draw false gen_sort_facts m = Val (c, log) ->
+    (forall n, In n log -> In n imp /\ In n (keys (to_sort m)))
+    /\ (forall n, In n imp -> In n (ia_names m) -> cnt n log = 1%nat)
+    /\ NoDup log.
+Proof. exact (fun fsem fsemN imp draw => drawn_once fsem fsemN imp draw gen_sort_facts gen_sc). Qed.
+Print Assumptions C13_drawing_assignment_evaluated_once.
+
+(** ... and the number of that one evaluation is THE value: there is one environment [e0] at time zero (plain values as
+    declared) in which a drawing assignment is its polynomial of the values its arguments have in [e0] plus the draw it
+    made -- the draw of its own position [k] in the log --, every other assignment, derived quantity, rate and surrogate
+    output is its pure function of the values in [e0] (so whatever names a drawn value was resolved from that number),
+    and the initial conditions the cache reports and every assignment-defined parameter are the values in [e0].
+    [C13_initial_assignments_resolved_once] is the case [imp = []]. *)
+Theorem C13_drawn_values_resolved_once :
+  forall fsem fsemN imp draw m c log,
+    WF m -> create_cache_d fsem fsemN imp draw false gen_sort_facts m = Val (c, log) ->
+    exists e0,
+      lookup time_name e0 = Some 0%Z
+      /\ (forall p v, In (p, Plain v) (m_par m) -> lookup p e0 = Some v)
+      /\ (forall x v, In (x, Plain v) (m_var m) -> lookup x e0 = Some v)
+      /\ (forall nm cmp, In (nm, cmp) (to_sort m) ->
+            if memN nm imp && is_fn_comp cmp
+            then exists k, nth_error log k = Some nm /\ comp_holds (plus_draw fsem (draw k)) fsemN nm cmp e0
+            else comp_holds fsem fsemN nm cmp e0)
+      /\ keys (c_init c) = keys (m_var m)
+      /\ (forall x, In x (keys (m_var m)) -> lookup x (c_init c) = lookup x e0)
+      /\ (forall p f a, In (p, IA f a) (m_par m) -> lookup p (c_all_par c) = lookup p e0).
+Proof. exact (fun fsem fsemN imp draw => drawn_resolved_once fsem fsemN imp draw gen_sort_facts gen_sc). Qed.
+Print Assumptions C13_drawn_values_resolved_once.
+
+(** the stateful model is the validated pure one when nothing is drawn: same cache, both ways *)
+Theorem C13_pure_stream_is_create_cache :
+  forall fsem fsemN imp draw F m,
+    (forall k, draw k = 0%Z) ->
+    (forall c log, create_cache_d fsem fsemN imp draw false F m = Val (c, log) -> create_cache fsem fsemN F m = Val c)
+    /\ (forall c, create_cache fsem fsemN F m = Val c ->
+          exists log, create_cache_d fsem fsemN imp draw false F m = Val (c, log)).
+Proof. exact pure_stream_is_create_cache. Qed.
+Print Assumptions C13_pure_stream_is_create_cache.
+
+(** regression (seeded change C13-8: [initial_conditions] rebuilt as "plain value as declared, else
+    init.calculate(dependent)"): the variable assignment 4 of [ex_draw_model] is evaluated twice in one resolution and the
+    start value (12) is not the number (11) the assigned parameter 2 was resolved from; with a stream that draws nothing
+    both shapes build the same cache, which is [create_cache]'s -- why no pure function shows the change *)
+Theorem C13_evaluated_again_refuted :
+  exists m imp draw c log c' log',
+    WF m
+    /\ create_cache_d FnLib.fsem FnLib.fsemN imp draw false gen_sort_facts m = Val (c, log)
+    /\ create_cache_d FnLib.fsem FnLib.fsemN imp draw true gen_sort_facts m = Val (c', log')
+    /\ cnt 4%N log = 1%nat /\ cnt 4%N log' = 2%nat
+    /\ lookup 4%N (c_init c) = Some 11%Z /\ lookup 2%N (c_all_par c) = Some 11%Z
+    /\ lookup 4%N (c_init c') = Some 12%Z /\ lookup 2%N (c_all_par c') = Some 11%Z
+    /\ (exists c0, create_cache_d FnLib.fsem FnLib.fsemN imp (fun _ => 0%Z) false gen_sort_facts m = Val (c0, log)
+                   /\ create_cache_d FnLib.fsem FnLib.fsemN imp (fun _ => 0%Z) true gen_sort_facts m = Val (c0, log')
+                   /\ create_cache FnLib.fsem FnLib.fsemN gen_sort_facts m = Val c0).
+Proof. exact evaluated_again_refuted. Qed.
+Print Assumptions C13_evaluated_again_refuted.
+
+(** non-vacuity: [ex_draw_model] (variable 4 := scale, drawing; parameter 2 := variable 4; derived parameter 6 behind it)
+    is well formed; with the stream 1, 2, 3, ... its cache is built, the one draw is logged, y = y_total = 11 *)
+Example C13_drawing_nonvacuous :
+  WF ex_draw_model /\ In 4%N (ia_names ex_draw_model)
+  /\ exists c, create_cache_d FnLib.fsem FnLib.fsemN [4%N] count_up false gen_sort_facts ex_draw_model = Val (c, [4%N])
+       /\ c_init c = [(3%N, 0%Z); (4%N, 11%Z)]
+       /\ c_all_par c = [(1%N, 10%Z); (2%N, 11%Z); (6%N, 21%Z)].
+Proof. split; [exact ex_draw_model_WF|]. split; [vm_compute; tauto|]. exact ex_draw_runs. Qed.
+Print Assumptions C13_drawing_nonvacuous.
 
 (** "every other derived quantity, flux and computed coefficient is recomputed from the state
     supplied" is C01_args_fully_resolved / C01_rhs_is_stoichiometry_times_rates (PropsC01.v). *)
